@@ -119,12 +119,21 @@ Record env := mkEnv { key : cid -> ckey; tgt : sid -> target }.
       client.rs [Client::cancel] only copies the key out of the packet; the map is read inside
       [handle], client.rs cancel_mode branch — AFTER [client_entrypoint]'s [drain.send(1).await]
       (client.rs:314-318), where the task may wait for the accounting channel; a mutant used to
-      show that the check notices a lookup that is older than the delivery). *)
+      show that the check notices a lookup that is older than the delivery).
+    [shutdown_refuses_cancel]: once a graceful shutdown has begun ([admin_only]: SIGINT / admin
+      SHUTDOWN) CancelRequests are refused like new client connections (false for the code as it
+      is: [client_entrypoint]'s CancelQuery arm, client.rs:306-333, calls [Client::cancel], which
+      does not take [admin_only]; only [Client::startup] refuses, client.rs:488.  A client whose
+      transaction is allowed to finish can still cancel it; a mutant).
+    [claim_needs_positive_pid]: [Server::claim] skips servers whose BackendKeyData process id is
+      <= 0 (false for the code as it is: server.rs claim inserts unconditionally; poolers in front of
+      PostgreSQL hand out arbitrary i32 pids; a mutant). *)
 Record variant := mkVariant { cancel_drop_removes : bool; exit_entry_first : bool; reload_prunes : bool;
-                              cancel_retries : bool; lookup_at_accept : bool }.
+                              cancel_retries : bool; lookup_at_accept : bool;
+                              shutdown_refuses_cancel : bool; claim_needs_positive_pid : bool }.
 
-Definition v_repaired : variant := mkVariant false true false false false. (* the code as it is (since 1e593b9) *)
-Definition v_orig : variant := mkVariant true false false false false.     (* the code before 1e593b9: both defects *)
+Definition v_repaired : variant := mkVariant false true false false false false false. (* the code as it is (since 1e593b9) *)
+Definition v_orig : variant := mkVariant true false false false false false false.     (* the code before 1e593b9: both defects *)
 
 (** The variant the correspondence check runs the implementation against, and the one the
     main theorems of Props.v are stated for.  Change this one definition when /repo changes
@@ -143,11 +152,14 @@ Record state := mkState {
   pending : list target;
   (* CancelRequests whose connection was accepted and whose [handle] has not run yet, with what the
      map said at accept time (only with [lookup_at_accept]; always empty for the code as it is) *)
-  accepted : list (ckey * option target)
+  accepted : list (ckey * option target);
+  (* a graceful shutdown has begun (main.rs: SIGINT sets admin_only for every connection accepted
+     from then on) *)
+  admin_only : bool
 }.
 
 Definition init : state :=
-  mkState [] (fun _ => mkClient None Running) (fun _ => Idle) (fun _ => false) [] [].
+  mkState [] (fun _ => mkClient None Running) (fun _ => Idle) (fun _ => false) [] [] false.
 
 Definition updc (f : cid -> client) (c : cid) (x : client) : cid -> client :=
   fun c' => if Nat.eqb c' c then x else f c'.
@@ -199,6 +211,10 @@ Inductive op :=
                                             is kept). *)
 | CancelAct (k : ckey)                   (* [handle] of that request runs: lookup NOW + contact (mutant:
                                             the answer kept at accept time is used) *)
+| Shutdown                               (* a graceful shutdown begins (SIGINT / admin SHUTDOWN): new
+                                            client connections are refused, idle clients are told to go
+                                            (their exits are ops of their own), transactions in progress
+                                            finish; cancel handling is not touched *)
 | Reload (retired : list sid).           (* configuration reload (config.rs:1665 reload_config ->
                                             pool.rs:312 from_config): the pools are rebuilt; the
                                             connections in [retired] belong to a pool that was
@@ -211,17 +227,23 @@ Definition is_running (p : phase) : bool := match p with Running => true | _ => 
 Definition is_exiting (p : phase) : bool := match p with Exiting => true | _ => false end.
 Definition is_idle (l : loc) : bool := match l with Idle => true | _ => false end.
 
+(** [Server::claim]: insert (client key |-> this server's pid, secret, address). *)
+Definition claim (E : env) (v : variant) (c : cid) (s : sid) (m : csm_t) : csm_t :=
+  if claim_needs_positive_pid v && Z.leb (fst (fst (tgt E s))) 0
+  then m
+  else csm_insert (key E c) (tgt E s) m.
+
 Definition step (E : env) (v : variant) (st : state) (o : op) : state :=
   match o with
   | Checkout c s =>
       match held (cl st c), cphase (cl st c), sv st s with
       | None, Running, Idle =>
-          mkState (csm_insert (key E c) (tgt E s) (csm st))
+          mkState (claim E v c s (csm st))
                   (updc (cl st) c (mkClient (Some s) Running))
                   (upds (sv st) s (HeldBy c))
                   (updg (gcancel st) (key E c) false)
                   (pending st)
-                  (accepted st)
+                  (accepted st) (admin_only st)
       | _, _, _ => st
       end
   | ReleaseNormal c clean =>
@@ -232,7 +254,7 @@ Definition step (E : env) (v : variant) (st : state) (o : op) : state :=
                   (upds (sv st) s (back clean))
                   (gcancel st)
                   (pending st)
-                  (accepted st)
+                  (accepted st) (admin_only st)
       | _, _ => st
       end
   | Terminate c clean =>
@@ -243,7 +265,7 @@ Definition step (E : env) (v : variant) (st : state) (o : op) : state :=
                   (upds (sv st) s (back clean))
                   (gcancel st)
                   (pending st)
-                  (accepted st)
+                  (accepted st) (admin_only st)
       | _, _ => st
       end
   | ExitDropGuard c clean =>
@@ -254,7 +276,7 @@ Definition step (E : env) (v : variant) (st : state) (o : op) : state :=
                   (upds (sv st) s (back clean))
                   (gcancel st)
                   (pending st)
-                  (accepted st)
+                  (accepted st) (admin_only st)
       | _, _ => st
       end
   | ExitDropClient c =>
@@ -265,28 +287,28 @@ Definition step (E : env) (v : variant) (st : state) (o : op) : state :=
                   (sv st)
                   (gcancel st)
                   (pending st)
-                  (accepted st)
+                  (accepted st) (admin_only st)
       | _, _ => st
       end
   | SrvClose s =>
       match sv st s with
-      | Idle => mkState (csm st) (cl st) (upds (sv st) s Closed) (gcancel st) (pending st) (accepted st)
+      | Idle => mkState (csm st) (cl st) (upds (sv st) s Closed) (gcancel st) (pending st) (accepted st) (admin_only st)
       | _ => st
       end
   | Cancel _ => st
   | CancelDrop k =>
       if cancel_drop_removes v
-      then mkState (csm_remove k (csm st)) (cl st) (sv st) (updg (gcancel st) k true) (pending st) (accepted st)
+      then mkState (csm_remove k (csm st)) (cl st) (sv st) (updg (gcancel st) k true) (pending st) (accepted st) (admin_only st)
       else st
   | CancelRefused k =>
       if cancel_retries v
       then match csm_lookup k (csm st) with
-           | Some t => mkState (csm st) (cl st) (sv st) (gcancel st) (pending st ++ [t]) (accepted st)
+           | Some t => mkState (csm st) (cl st) (sv st) (gcancel st) (pending st ++ [t]) (accepted st) (admin_only st)
            | None => st
            end
       else st
   | DeliverLate =>
-      mkState (csm st) (cl st) (sv st) (gcancel st) (tl (pending st)) (accepted st)
+      mkState (csm st) (cl st) (sv st) (gcancel st) (tl (pending st)) (accepted st) (admin_only st)
   | Reload retired =>
       mkState (if reload_prunes v
                then csm_remove_all (keys_at (map (fun s => snd (tgt E s)) retired) (csm st)) (csm st)
@@ -295,14 +317,16 @@ Definition step (E : env) (v : variant) (st : state) (o : op) : state :=
               (retire_sv (sv st) retired)
               (gcancel st)
               (pending st)
-              (accepted st)
+              (accepted st) (admin_only st)
   | CancelAccept k =>
       if lookup_at_accept v
       then mkState (csm st) (cl st) (sv st) (gcancel st) (pending st)
-                   (accepted st ++ [(k, csm_lookup k (csm st))])
+                   (accepted st ++ [(k, csm_lookup k (csm st))]) (admin_only st)
       else st
   | CancelAct k =>
-      mkState (csm st) (cl st) (sv st) (gcancel st) (pending st) (acc_remove k (accepted st))
+      mkState (csm st) (cl st) (sv st) (gcancel st) (pending st) (acc_remove k (accepted st)) (admin_only st)
+  | Shutdown =>
+      mkState (csm st) (cl st) (sv st) (gcancel st) (pending st) (accepted st) true
   end.
 
 Definition run (E : env) (v : variant) (ops : list op) : state := fold_left (step E v) ops init.
@@ -312,6 +336,10 @@ Inductive outcome := Silent | Contact (t : target).
 
 Definition cancel_out (st : state) (k : ckey) : outcome :=
   match csm_lookup k (csm st) with Some t => Contact t | None => Silent end.
+
+(** What a CancelRequest with key [k] does, shutdown taken into account (the code: nothing changes). *)
+Definition cancel_eff (v : variant) (st : state) (k : ckey) : outcome :=
+  if shutdown_refuses_cancel v && admin_only st then Silent else cancel_out st k.
 
 (** What arrives at a backend when a kept request finally gets through. *)
 Definition late_out (st : state) : outcome :=
@@ -333,7 +361,7 @@ Definition act_out (v : variant) (st : state) (k : ckey) : outcome :=
 Fixpoint outcomes_from (E : env) (v : variant) (st : state) (ops : list op) : list outcome :=
   match ops with
   | [] => []
-  | Cancel k :: r => cancel_out st k :: outcomes_from E v (step E v st (Cancel k)) r
+  | Cancel k :: r => cancel_eff v st k :: outcomes_from E v (step E v st (Cancel k)) r
   | CancelRefused k :: r => Silent :: outcomes_from E v (step E v st (CancelRefused k)) r
   | DeliverLate :: r => late_out st :: outcomes_from E v (step E v st DeliverLate) r
   | CancelAct k :: r => act_out v st k :: outcomes_from E v (step E v st (CancelAct k)) r
@@ -379,6 +407,11 @@ Definition no_checkout_key (E : env) (k : ckey) (ops : list op) : bool :=
 Definition ex_env : env :=
   mkEnv (fun c => (100 + Z.of_nat c, 7000 + Z.of_nat c)%Z)
         (fun s => (1000 + Z.of_nat s, (1000 + Z.of_nat s) * 7 + 13, (0%N, 5432))%Z).
+
+(** Servers whose BackendKeyData is unusual: negative pid and secret (another pooler in front). *)
+Definition ex_env_neg : env :=
+  mkEnv (fun c => (100 + Z.of_nat c, 7000 + Z.of_nat c)%Z)
+        (fun s => (- (1000 + Z.of_nat s), - ((1000 + Z.of_nat s) * 7 + 13), (0%N, 5432))%Z).
 
 Definition env_of (tgts : list target) : env :=
   mkEnv (fun c => (100 + Z.of_nat c, 7000 + Z.of_nat c)%Z)
